@@ -55,13 +55,15 @@ Dom(u) == {n \in Names : store[u][n] # none}
 ---------------------------------------------------------------------------
 (* Bounds.  small: c1 belongs to u1 and uses every argument, c2 belongs to *)
 (* u2 and uses the SAME name n1 with another content (the collision that   *)
-(* matters for isolation), c3 never authenticates.                         *)
+(* matters for isolation), c3 never authenticates.  medium: c3 is a second *)
+(* connection of u1.  full: any connection, any user, every argument (too  *)
+(* large to enumerate with `last`; used for -simulate).                    *)
 
 MayAuth(c) == CASE Scope = "small"  -> (IF c = c1 THEN {u1} ELSE IF c = c2 THEN {u2} ELSE {})
-                [] Scope = "medium" -> (IF c = c1 THEN {u1} ELSE IF c = c2 THEN {u2} ELSE Users)
+                [] Scope = "medium" -> (IF c = c2 THEN {u2} ELSE {u1})
                 [] OTHER            -> Users
 
-Rich(c) == Scope # "small" \/ c = c1
+Rich(c) == Scope = "full" \/ c = c1
 
 NameArgs(c)  == IF Rich(c) THEN Names \cup {empty} ELSE {n1}
 ContArgs(c)  == IF Rich(c) THEN Contents ELSE IF c = c2 THEN {s2} ELSE {s1}
@@ -118,8 +120,8 @@ Init == /\ auth = [c \in Conns |-> none]
 CapabilityRes(c) == {CapsR(auth[c])}
 Capability(c, r) == r \in CapabilityRes(c) /\ Did(c, "Capability", none, none, r) /\ Same
 
-NoopRes(c, tagged) == {IF tagged THEN OkCode("TAG") ELSE Ok}
-Noop(c, tagged, r) == r \in NoopRes(c, tagged) /\ Did(c, "Noop", tagged, none, r) /\ Same
+NoopRes(c, t) == {IF t = "tagged" THEN OkCode("TAG") ELSE Ok}
+Noop(c, t, r) == r \in NoopRes(c, t) /\ Did(c, "Noop", t, none, r) /\ Same
 
 \* RFC 5804 2.3 asks for OK; BYE is accepted too.  Either way the connection is
 \* gone afterwards (the binding opens a fresh one under the same name).
@@ -234,12 +236,13 @@ CheckRes(c, s) ==
     ELSE IF s = bad THEN {NoAny} ELSE {Plain({"OK"}, {"ANY"})}
 Check(c, s, r) == r \in CheckRes(c, s) /\ Did(c, "Check", s, none, r) /\ Same
 
-\* big = a size no server can be expected to accept; it may still say OK
-HaveSpaceRes(c, n, big) ==
+\* "big" = a size no server can be expected to accept; it may still say OK
+Sizes == {"small", "big"}
+HaveSpaceRes(c, n, sz) ==
     IF auth[c] = none THEN {Refused}
     ELSE IF n = empty THEN {NoAny}
-    ELSE IF big THEN {Plain({"OK", "NO"}, {"QUOTA", ""})} ELSE {Ok}
-HaveSpace(c, n, big, r) == r \in HaveSpaceRes(c, n, big) /\ Did(c, "HaveSpace", n, big, r) /\ Same
+    ELSE IF sz = "big" THEN {Plain({"OK", "NO"}, {"QUOTA", ""})} ELSE {Ok}
+HaveSpace(c, n, sz, r) == r \in HaveSpaceRes(c, n, sz) /\ Did(c, "HaveSpace", n, sz, r) /\ Same
 
 ---------------------------------------------------------------------------
 (* TLC can only split `\E r \in S : A(.., r)` into one named action per r   *)
@@ -267,7 +270,7 @@ HaveSpaceAll  == {Refused, NoAny, Ok, Plain({"OK", "NO"}, {"QUOTA", ""})}
 Universes ==
     \A c \in Conns :
         /\ CapabilityRes(c) \subseteq CapabilityAll
-        /\ \A t \in BOOLEAN : NoopRes(c, t) \subseteq NoopAll
+        /\ \A t \in {"plain", "tagged"} : NoopRes(c, t) \subseteq NoopAll
         /\ LogoutRes(c) \subseteq LogoutAll /\ StartTLSRes(c) \subseteq StartTLSAll
         /\ \A u \in Users, how \in {"good", "badpw", "authz"} : AuthRes(c, u, how) \subseteq AuthAll
         /\ UnauthRes(c) \subseteq UnauthAll /\ UnknownRes(c) \subseteq UnknownAll
@@ -278,14 +281,14 @@ Universes ==
               /\ DeleteRes(c, n) \subseteq DeleteAll
               /\ \A s \in Contents : PutRes(c, n, s) \subseteq PutAll
               /\ \A b \in Names \cup {empty} : RenameRes(c, n, b) \subseteq RenameAll
-              /\ \A big \in BOOLEAN : HaveSpaceRes(c, n, big) \subseteq HaveSpaceAll
+              /\ \A sz \in Sizes : HaveSpaceRes(c, n, sz) \subseteq HaveSpaceAll
 
 ---------------------------------------------------------------------------
 
 Next ==
     \E c \in Conns :
         \/ \E r \in CapabilityAll : Capability(c, r)
-        \/ \E t \in BOOLEAN : \E r \in NoopAll : Noop(c, t, r)
+        \/ \E t \in {"plain", "tagged"} : \E r \in NoopAll : Noop(c, t, r)
         \/ \E r \in LogoutAll : Logout(c, r)
         \/ \E r \in StartTLSAll : StartTLS(c, r)
         \/ \E u \in AuthUsers(c), how \in AuthHows(c) : \E r \in AuthAll : Auth(c, u, how, r)
@@ -299,7 +302,7 @@ Next ==
         \/ \E n \in NameArgs(c) : \E r \in DeleteAll : Delete(c, n, r)
         \/ \E a \in NameArgs(c), b \in NameArgs(c) : \E r \in RenameAll : Rename(c, a, b, r)
         \/ \E s \in ContArgs(c) : \E r \in CheckAll : Check(c, s, r)
-        \/ \E n \in NameArgs(c), big \in BOOLEAN : \E r \in HaveSpaceAll : HaveSpace(c, n, big, r)
+        \/ \E n \in NameArgs(c), sz \in Sizes : \E r \in HaveSpaceAll : HaveSpace(c, n, sz, r)
 
 Spec == Init /\ [][Next]_vars
 
